@@ -22,7 +22,7 @@ def base_constants():
     return {
         "GF": 3, "GA": 1, "GB": 3,
         "XsA": {0, 1, 2}, "YsA": {0, 1, 2}, "XsB": {0, 1, 2}, "YsB": {0, 1, 2},
-        "HXsA": set(), "HYsA": set(), "HXsB": set(), "HYsB": set(),
+        "HXsA": set(), "HYsA": set(), "HXsB": set(), "HYsB": set(), "GlueXs": set(),
         "ThinMod": 1, "ThinRem": 0,
         "KindsA": {0}, "KindsB": {0}, "PitchA": {1}, "PitchB": {1},
         "MaxLoopsA": 1, "MaxLoopsB": 1, "FacePairs": {0}, "CheckAll": False,
@@ -158,6 +158,43 @@ def polar_cfg(rnd, quick):
     return k
 
 
+def coarse_cfg(rnd, quick, target):
+    """A = loops with very few vertices and face-sized (or level-1/2) index cells: plain 4-vertex
+    rectangles of level 1..2 (the whole face included) and loops over TWO faces across their common
+    side (6 vertices, one index cell per face); B = small fine-level loops placed along A's boundary
+    on the later face, in particular in the second half of the Hilbert range of A's last index cell
+    (where a range iterator has to step back onto that cell), crossing / touching / inside / outside"""
+    k = base_constants()
+    ga = rnd.choice([2, 3])
+    gb = rnd.choice([5, 6])
+    na, nb = 2 ** ga, 2 ** gb
+    s = nb // na
+    fa = rnd.choice([1, 3, 5] if quick else [1, 2, 3, 4, 5])
+    # generic frame of a two-face loop: "along" = across the common side, "transverse" = along it; the
+    # second half of the later face's Hilbert range is the half with the larger transverse coordinate.
+    # The half on the later face straddles the face centre (=> its index cell is the whole face) and
+    # stays off the other face sides (=> that cell is the loop's last one).
+    y0, y1 = rnd.randint(0, na // 2 - 1), rnd.randint(na // 2 + 1, na - 1)
+    ys = {y0, y1, na if rnd.random() < 0.5 else rnd.randint(na // 2, na)}
+    m = rnd.randint(na // 2 + 1, na - 1)
+    glue = {m, rnd.randint(1, na)}
+    k.update({"GF": gb, "GA": ga, "GB": gb, "XsA": {0, na}, "YsA": ys, "GlueXs": glue,
+              "KindsA": {0}, "KindsB": {0}, "PitchA": {0}, "PitchB": {1, rnd.choice([2, 4])}})
+    # B: rectangles from 4 x 4 coordinates: astride / on / inside the far side of the half on the later
+    # face, and astride / on the upper transverse side, strictly inside the upper half of the face
+    # (the second half of the Hilbert range of the face cell); one coordinate elsewhere
+    along = {m * s - rnd.randint(1, s - 2), m * s, m * s + rnd.randint(1, s - 2), rnd.randint(2, nb - 2)}
+    trans = {y1 * s - rnd.randint(1, s - 3), y1 * s, y1 * s + rnd.randint(1, s - 2),
+             rnd.choice([rnd.randint(2, nb // 2), rnd.randint(nb // 2 + 3, nb - 2)])}
+    # for an even later face the two-face loop is transposed (common side y = 0): transpose B's coordinates too
+    k["XsB"], k["YsB"] = (along, trans) if fa % 2 == 1 else (trans, along)
+    k["FacePairs"] = {fa * 6 + fa, fa * 6 + fa - 1} if not quick else {fa * 6 + fa}
+    est = (3 + 2 * 2 * 3) * nrects(along, trans) * 2 * len(k["FacePairs"])
+    k["ThinMod"] = max(1, int(est / (2.5 * target)))     # est is an upper bound: many candidates are not valid pairs
+    k["ThinRem"] = rnd.randrange(k["ThinMod"])
+    return k
+
+
 def small_cfg(rnd, quick):
     """tiny fine level: every cell of the sphere is enumerated, so TLC proves on each generated
     pair that the probe universe is exact and that the corner sequences bound the cell sets;
@@ -175,9 +212,11 @@ def small_cfg(rnd, quick):
     k["KindsB"] = {0, rnd.choice([1, 2, 3, 4])}
     k["PitchA"] = {0, 1}
     k["PitchB"] = {1}
+    if ga <= gb:
+        k["GlueXs"] = set(rnd.sample(range(1, na + 1), 1))
     f1, f2, f3 = rnd.sample(range(6), 3)
     k["FacePairs"] = {f1 * 6 + f1, f2 * 6 + f3} if quick else {f * 6 + f for f in range(6)} | {f2 * 6 + f3, f3 * 6 + f1}
-    est = nrects(k["XsA"], k["YsA"]) * 3.0 * nrects(k["XsB"], k["YsB"]) * 1.5 * len(k["FacePairs"])
+    est = (nrects(k["XsA"], k["YsA"]) * 3.0 + len(k["GlueXs"]) ** 2 * nrects({0, 1}, k["YsA"]) * 2) * nrects(k["XsB"], k["YsB"]) * 1.5 * len(k["FacePairs"])
     k["ThinMod"] = max(1, int(round(est / (250 if quick else 4000))))
     k["ThinRem"] = rnd.randrange(k["ThinMod"])
     return k
@@ -223,6 +262,10 @@ def run(ctx):
 
     # 2b. wrap-around longitudes on a polar face
     pairs(polar_cfg(rnd, quick), "polar wrap-around polygon pairs")
+
+    # 2c. few-vertex loops with coarse index cells (also over two faces) against small loops
+    for _ in range(1 if quick else 6):
+        pairs(coarse_cfg(rnd, quick, 450 if quick else 2500), "coarse-cell / two-face pairs")
 
     # 3. mixed-level loop pairs and polygon pairs
     levels = [(4, 7), (3, 6), (4, 6), (5, 7), (3, 5), (2, 5), (7, 4), (6, 3), (5, 3)]
